@@ -58,6 +58,9 @@ pub enum Act {
   Cr(usize, N),
   /// wake the externally-woken scripted future/stream with this id
   Wake(u32),
+  /// hot input k goes away without a terminal (the subject is unsubscribed and drops its
+  /// observers) after the program has let its subscription handles go out of scope
+  Gone(usize),
 }
 
 #[derive(Clone, Debug, PartialEq, Eq, Hash)]
@@ -186,6 +189,17 @@ impl World {
       }
       Act::Wake(id) => {
         crate::scripts::wake(*id);
+      }
+      Act::Gone(k) => {
+        // the program keeps nothing: its subscription handles go out of scope (dropping a
+        // handle is not an unsubscribe), then the source drops its observers
+        for s in self.subs.iter_mut() {
+          drop(std::mem::replace(s, Sub::Gone));
+        }
+        match self.flavor {
+          Flavor::Threads => self.t.hot[*k].clone().unsubscribe(),
+          _ => self.l.hot[*k].clone().unsubscribe(),
+        }
       }
     }
   }
